@@ -508,10 +508,42 @@ package machine
 //@ pred FreshState(s State) := fresh(s.Require) && fresh(s.Add) && fresh(s.Remove) && fresh(s.After) && fresh(s.Tags)
 //@ pred SameState(a State, b State) := a.Auto == b.Auto && a.Multi == b.Multi && seqeq(a.Require, b.Require) && seqeq(a.Add, b.Add) && seqeq(a.Remove, b.Remove) && seqeq(a.After, b.After) && seqeq(a.Tags, b.Tags)
 
+// A copy keeps the difference between "no list" (nil) and "empty list": the
+// schema-derivation helpers below replace an inherited relation exactly when the
+// overlay's list is non-nil, so an empty list is how a derived schema clears one.
+//@ pred SameNil(a State, b State) := isnil(a.Require) == isnil(b.Require) && isnil(a.Add) == isnil(b.Add) && isnil(a.Remove) == isnil(b.Remove) && isnil(a.After) == isnil(b.After) && isnil(a.Tags) == isnil(b.Tags)
 //@ func (s State) Clone() (r State)
-//@   props C20
+//@   props C20 C19
 //@   ensures same:  SameState(r, s)
+//@   ensures nils:  SameNil(r, s)
 //@   ensures fresh: FreshState(r)
+
+// Deriving a state of a shipped schema from an inherited one: every relation the
+// overlay names (non-nil list, possibly empty) replaces the inherited one, every
+// other relation is inherited; Auto / Multi are the given ones.
+//@ func StateSet(source State, auto bool, multi bool, overlay State) (r State)
+//@   props C19 C20
+//@   ensures flags:   r.Auto == auto && r.Multi == multi
+//@   ensures require: isnil(overlay.Require) ? seqeq(r.Require, source.Require) : seqeq(r.Require, overlay.Require)
+//@   ensures add:     isnil(overlay.Add) ? seqeq(r.Add, source.Add) : seqeq(r.Add, overlay.Add)
+//@   ensures remove:  isnil(overlay.Remove) ? seqeq(r.Remove, source.Remove) : seqeq(r.Remove, overlay.Remove)
+//@   ensures after:   isnil(overlay.After) ? seqeq(r.After, source.After) : seqeq(r.After, overlay.After)
+//@   ensures tags:    seqeq(r.Tags, source.Tags)
+//@   ensures fresh:   FreshState(r)
+//@ func (s State) SetRels(overlay State) (r State)
+//@   props C19 C20
+//@   ensures flags:   r.Auto == s.Auto && r.Multi == s.Multi
+//@   ensures require: isnil(overlay.Require) ? seqeq(r.Require, s.Require) : seqeq(r.Require, overlay.Require)
+//@   ensures remove:  isnil(overlay.Remove) ? seqeq(r.Remove, s.Remove) : seqeq(r.Remove, overlay.Remove)
+//@   ensures add:     isnil(overlay.Add) ? seqeq(r.Add, s.Add) : seqeq(r.Add, overlay.Add)
+//@   ensures after:   isnil(overlay.After) ? seqeq(r.After, s.After) : seqeq(r.After, overlay.After)
+//@ func (s State) Set(auto bool, multi bool, overlay State) (r State)
+//@   props C19 C20
+//@   ensures flags:   r.Auto == auto && r.Multi == multi
+//@   ensures require: isnil(overlay.Require) ? seqeq(r.Require, s.Require) : seqeq(r.Require, overlay.Require)
+//@   ensures remove:  isnil(overlay.Remove) ? seqeq(r.Remove, s.Remove) : seqeq(r.Remove, overlay.Remove)
+//@   ensures add:     isnil(overlay.Add) ? seqeq(r.Add, s.Add) : seqeq(r.Add, overlay.Add)
+//@   ensures after:   isnil(overlay.After) ? seqeq(r.After, s.After) : seqeq(r.After, overlay.After)
 
 //@ func (s Schema) Clone() (ret Schema)
 //@   props C20
